@@ -33,6 +33,8 @@ pub enum Entry {
     MpqCompare { other: String },
     /// PatchChain: add base + others, list
     MpqChain { others: Vec<String> },
+    /// PatchChain: add base + others, read the given names through the chain (extract --patch)
+    MpqChainRead { others: Vec<String>, names: Vec<String> },
     /// DbcParser::parse
     DbcParse,
     /// parse + parse_records (info, list, analyze, discover without schema)
@@ -188,6 +190,27 @@ fn eval_inner(entry: &Entry, path: &Path) -> Result<Value, String> {
             }
             let n = c.list().map_err(|e| es(&e))?.len();
             Ok(json!({"unique": n}))
+        }
+        Entry::MpqChainRead { others, names } => {
+            let mut c = wow_mpq::PatchChain::new();
+            c.add_archive(path, 0).map_err(|e| es(&e))?;
+            for (i, o) in others.iter().enumerate() {
+                c.add_archive(Path::new(o), ((i + 1) * 100) as i32).map_err(|e| es(&e))?;
+            }
+            let mut m = serde_json::Map::new();
+            let mut errs = 0;
+            for n in names {
+                match c.read_file(n) {
+                    Ok(d) => {
+                        m.insert(n.clone(), digest(&d));
+                    }
+                    Err(e) => {
+                        errs += 1;
+                        m.insert(n.clone(), json!({"err": e.to_string()}));
+                    }
+                }
+            }
+            Ok(json!({"files": Value::Object(m), "read_errors": errs, "names": names}))
         }
         Entry::DbcParse | Entry::DbcRecords | Entry::DbcSchema { .. } => {
             let f = File::open(path).map_err(|e| es(&e))?;
